@@ -438,8 +438,23 @@ impl Visitor<Diagnostic> for RuleGraphReferenceableElements {
                         self.declarations.graph.add_edge(to, from, ());
                     }
                     InitialValueAssignmentKind::Subrange(_) => {}
-                    InitialValueAssignmentKind::Structure(_) => {}
-                    InitialValueAssignmentKind::Array(_) => {}
+                    InitialValueAssignmentKind::Structure(si) => {
+                        // With an initial value, a reference to a structure or function
+                        // block is still a reference
+                        let from = self.declarations.add_node(from);
+                        let to = self.declarations.add_node(&si.type_name.name);
+                        self.declarations.graph.add_edge(to, from, ());
+                    }
+                    InitialValueAssignmentKind::Array(ai) => {
+                        // The elements of the array are of a type that may be declared
+                        let element_type = match &ai.spec {
+                            ArraySpecificationKind::Type(parent) => parent,
+                            ArraySpecificationKind::Subranges(subranges) => &subranges.type_name,
+                        };
+                        let from = self.declarations.add_node(from);
+                        let to = self.declarations.add_node(&element_type.name);
+                        self.declarations.graph.add_edge(to, from, ());
+                    }
                     InitialValueAssignmentKind::LateResolvedType(lrt) => {
                         // We nly care about these because these may be references to a function block
                         let from = self.declarations.add_node(from);
